@@ -196,6 +196,7 @@ pub fn run_batch(ctx: &Ctx, seqs: Vec<Seq>, opts_of: impl Fn(&Seq) -> RunOpts + 
                 // the case is on disk before it runs, so a hang can name it
                 let cur = ctx.scratch.join(format!("current_{}.txt", t));
                 let _ = std::fs::write(&cur, seq.text());
+                CURRENT_SEQ.with(|c| *c.borrow_mut() = cur.to_string_lossy().to_string());
                 let wid = watch_begin(600_000, format!("seq-file={}", cur.display()));
                 let out = run_fresh(ctx, seq, &tag, &opts);
                 watch_end(wid);
@@ -426,9 +427,11 @@ fn cyclic_bound(ctx: &Ctx, b: &mut Batch) {
     let mut rng = Rng::new(ctx.seed ^ 0xC06C06);
     for variant in 0..4u64 {
         let dir = fresh_dir(&ctx.scratch, &format!("cyc{}", variant));
-        let mut imp = crate::imp::Impl::new(&dir);
         let kt = Kt::Bytes;
-        let _ = imp.open(0, kt, &Params::buckets(16));
+        let mut imp = crate::exec::Exec::In(crate::imp::Impl::new(&dir));
+        imp.exec(&Op::Map(0, kt, Params::buckets(16)));
+        let seqf = ctx.scratch.join(format!("current_cyc{}.txt", variant));
+        CURRENT_SEQ.with(|c| *c.borrow_mut() = seqf.to_string_lossy().to_string());
         let lens: Vec<usize> = match variant {
             0 => vec![5, 20, 100],
             1 => vec![1100, 1500, 5000, 3000],
@@ -436,6 +439,7 @@ fn cyclic_bound(ctx: &Ctx, b: &mut Batch) {
             _ => vec![0, 300, 2000, 70_000],
         };
         let mut sizes_at: Vec<(u64, u64)> = Vec::new();
+        let mut broke: Option<String> = None;
         let mut ops_text = format!("open {} {}\n", kt.name(), Params::buckets(16).tok());
         for c in 0..cycles {
             let mut keys = Vec::new();
@@ -445,15 +449,25 @@ fn cyclic_bound(ctx: &Ctx, b: &mut Batch) {
                 let op = Op::Put(B::Hex(k.clone()), B::Pat(l, c as u64 % 50));
                 ops_text.push_str(&op.text());
                 ops_text.push('\n');
-                imp.exec(&op);
+                let _ = std::fs::write(&seqf, &ops_text);
+                let wid = watch_begin(20_000, format!("cyclic op {}", op.text()));
+                let r = imp.exec(&op);
+                watch_end(wid);
+                if r.starts_with("panic") { broke = Some(format!("{} => {}", op.text(), r)); break; }
                 keys.push(k);
             }
+            if broke.is_some() { break; }
             for k in keys {
                 let op = Op::Del(B::Hex(k));
                 ops_text.push_str(&op.text());
                 ops_text.push('\n');
-                imp.exec(&op);
+                let _ = std::fs::write(&seqf, &ops_text);
+                let wid = watch_begin(20_000, format!("cyclic op {}", op.text()));
+                let r = imp.exec(&op);
+                watch_end(wid);
+                if r.starts_with("panic") { broke = Some(format!("{} => {}", op.text(), r)); break; }
             }
+            if broke.is_some() { break; }
             b.ops += 12;
             if c % 20 == 19 || c + 1 == cycles {
                 imp.exec(&Op::Flush);
@@ -463,7 +477,10 @@ fn cyclic_bound(ctx: &Ctx, b: &mut Batch) {
             }
         }
         imp.close_all();
-        let dec = crate::decoder::decode(&dir, "m0", &sig_of(kt));
+        let mut dec = crate::decoder::decode(&dir, "m0", &sig_of(kt));
+        if let Some(b) = &broke {
+            dec.errors.insert(0, format!("a call of the cyclic workload panicked: {}", b));
+        }
         // bound implied by the statement: slots per size <= peak simultaneously used slots of that size (+1 transient).
         // The live set never exceeds 6 entries, so no size may have more than 6 + 1 slots … the shared large
         // list is first-fit, so count all large slots together: <= 6 + 1 as well.
